@@ -74,6 +74,12 @@ def main():
             assert not st, target + ' not clean'
             rc, o = sh(f'git apply {patch}', cwd=target)
             meta['applied_to'] = target
+            # evidence files must stay those of the unchanged tree
+            saved_ev = {}
+            for cid in checks:
+                ep = f'{VERIF}/evidence/{cid}.json'
+                if os.path.exists(ep):
+                    saved_ev[ep] = open(ep).read()
             try:
                 for cid in checks:
                     t = time.time()
@@ -94,6 +100,8 @@ def main():
                                 d.get('what') or d.get('broken'))[:400]
             finally:
                 sh('git checkout -- .', cwd=target)
+                for ep, txt in saved_ev.items():
+                    open(ep, 'w').write(txt)
         dst = f'{VERIF}/seeded/{pid}-{k}'
         os.makedirs(dst, exist_ok=True)
         shutil.copy(patch, f'{dst}/patch.diff')
